@@ -15,6 +15,7 @@ import (
 	"strconv"
 	"strings"
 	"sync"
+	"syscall"
 	"time"
 )
 
@@ -501,4 +502,69 @@ func UnHex(s string) []byte {
 		panic(err)
 	}
 	return b
+}
+
+// ParkedInCollector scans all goroutines for one that is parked - waiting on a channel, select, lock or
+// semaphore - with a collector function (github.com/EdgeCast/vflow/...) on its stack, and returns its
+// state and the innermost collector frame. A goroutine that is only starved of CPU is runnable, not parked.
+func ParkedInCollector() (state, site string, ok bool) {
+	buf := make([]byte, 4<<20)
+	buf = buf[:runtime.Stack(buf, true)]
+	for _, g := range strings.Split(string(buf), "\n\n") {
+		head := g
+		if i := strings.IndexByte(g, '\n'); i > 0 {
+			head = g[:i]
+		}
+		i, j := strings.IndexByte(head, '['), strings.IndexByte(head, ']')
+		if i < 0 || j < i {
+			continue
+		}
+		st := head[i+1 : j]
+		base := st
+		if k := strings.IndexByte(base, ','); k > 0 {
+			base = base[:k]
+		}
+		if !(strings.HasPrefix(base, "chan ") || strings.HasPrefix(base, "select") || strings.HasPrefix(base, "semacquire") || strings.HasPrefix(base, "sync.")) {
+			continue
+		}
+		for _, l := range strings.Split(g, "\n") {
+			if strings.HasPrefix(l, "github.com/EdgeCast/vflow/") {
+				f := strings.TrimPrefix(l, "github.com/EdgeCast/vflow/")
+				if k := strings.LastIndex(f, "("); k > 0 {
+					f = f[:k]
+				}
+				return st, f, true
+			}
+		}
+	}
+	return "", "", false
+}
+
+// WatchParked calls onParked once if, for `quiet` in a row, progress() has not advanced, the process has used
+// next to no CPU, and ParkedInCollector finds a goroutine waiting inside collector code: work has stopped
+// and will not resume by itself (a lock that is never released, a channel nobody serves).
+func WatchParked(progress func() int64, quiet time.Duration, onParked func(state, site string)) {
+	go func() {
+		cpu := func() time.Duration {
+			var ru syscall.Rusage
+			syscall.Getrusage(syscall.RUSAGE_SELF, &ru)
+			return time.Duration(ru.Utime.Nano() + ru.Stime.Nano())
+		}
+		lastP, lastC, since := progress(), cpu(), time.Now()
+		for {
+			time.Sleep(500 * time.Millisecond)
+			p, c := progress(), cpu()
+			if p != lastP || c-lastC > 150*time.Millisecond {
+				lastP, lastC, since = p, c, time.Now()
+				continue
+			}
+			if time.Since(since) >= quiet {
+				if st, site, ok := ParkedInCollector(); ok {
+					onParked(st, site)
+					return
+				}
+				lastP, lastC, since = p, c, time.Now()
+			}
+		}
+	}()
 }
